@@ -529,13 +529,18 @@ COMMIT_EXCEPTIONS = {
 }
 
 
-def commit_group(ctx, name, floor=1):
+def commit_group(ctx, name, floor=1, only=None):
+    """`only`: regex on the function name - the part of the group that the calling property's clauses rest on (a property does not
+    report a change in a module it has nothing to do with)."""
     bodies_rx, effect_rx, what = COMMIT_GROUPS[name]
     P = ctx.prog
     rx = re.compile(bodies_rx)
+    orx = re.compile(only) if only else None
     n = 0
     for b in P.all_bodies():
         if not rx.search(b.name) or "::tests" in b.name:
+            continue
+        if orx is not None and not orx.search(b.name):
             continue
         eff_all = list(b.calls(effect_rx))
         for e in eff_all:
@@ -557,7 +562,7 @@ def commit_group(ctx, name, floor=1):
             ctx.ob("commit|%s|%s|%s" % (name, b.name, K_last(e.callee)), p is None, msg, [e])
     if n < floor:
         ctx.missing("commit group %s: %d effect sites (expected >= %d)" % (name, n, floor))
-    decision_census(ctx, name)
+    decision_census(ctx, name, only)
 
 
 # ------------------------------------------------------------------ decision-input census
@@ -694,7 +699,7 @@ def decision_inputs_today(P, group):
     return res, sites
 
 
-def decision_census(ctx, group):
+def decision_census(ctx, group, only=None):
     global _DI
     if _DI is None:
         try:
@@ -706,6 +711,12 @@ def decision_census(ctx, group):
         ctx.missing("decision-input baseline for group " + group)
         return
     today, sites = decision_inputs_today(ctx.prog, group)
+    cnts_all = (_DI.get("__counts__") or {}).get(group, {})
+    if only:
+        orx = re.compile(only)
+        base = {k: v for k, v in base.items() if orx.search(k.split("|")[0])}
+        today = {k: v for k, v in today.items() if orx.search(k.split("|")[0])}
+        cnts_all = {k: v for k, v in cnts_all.items() if orx.search(k.split("|")[0])}
     n = 0
     for k, ins in sorted(today.items()):
         if k not in base:
@@ -717,7 +728,7 @@ def decision_census(ctx, group):
                    k.split("|")[1], ", ".join(base[k]) or "none: unconditional",
                    "; NEW input(s): " + ", ".join(new) if new else ""), sites[k][:3])
     # fewer sites of an effect in a function than when the baseline was taken (one of two polls / pushes / notifications removed)
-    cnts = (_DI.get("__counts__") or {}).get(group, {})
+    cnts = cnts_all
     for k, want in sorted(cnts.items()):
         if k in today and len(sites[k]) < want:
             ctx.ob("effect-sites-not-fewer|%s|%s" % (group, k), False,
